@@ -47,6 +47,8 @@ def one(patch: str, with_suite: bool, runs: str | None) -> bool:
         if with_suite and not run_suite(dst):
             print(f"  {name}: mutant is killed by the repository's own suite (still checking ours)")
         env = dict(os.environ, VERIF_REPO=dst, VERIF_NO_EVIDENCE="1")
+        if not os.environ.get("VERIF_WITH_COMPILED"):
+            env["VERIF_NO_COMPILED"] = "1"      # (a mypyc build per scratch copy costs ~25 s; opt in)
         if runs:
             env["VERIF_RUNS"] = runs
         r = subprocess.run([os.path.join(VERIF, "check"), cid, "--tier", "quick"], env=env,
